@@ -29,11 +29,13 @@ P = 10007
 class Ctx:
     """Per-event numbering of indices and tensor names."""
 
-    def __init__(self):
+    def __init__(self, names=None):
         self.idx_ids = {}      # Index -> id (1 based)
         self.idx = []          # [{n, s, p}]
         self.idx_objs = []     # the Index objects
-        self.names = {}        # (name) -> nid (1 based)
+        # name -> nid (1 based); a shared dict gives the events of one trace
+        # a common numbering (needed for models shared between events)
+        self.names = names if names is not None else {}
 
     def index(self, s) -> int:
         if not isinstance(s, Index):
